@@ -937,7 +937,19 @@ impl QueryRouter {
         let num_parameters = message_cursor.get_i16();
 
         for i in 0..num_parameters {
-            let mut len = message_cursor.get_i32() as usize;
+            let len = message_cursor.get_i32();
+
+            // NULL, there is nothing to read or to skip.
+            if len < 0 {
+                continue;
+            }
+
+            let mut len = len as usize;
+
+            if message_cursor.remaining() < len {
+                debug!("Bind parameter {} is longer than the message", i);
+                return false;
+            }
             let format = match &parameter_format {
                 ParameterFormat::Text => ParameterFormat::Text,
                 ParameterFormat::Uniform(format) => *format.clone(),
@@ -977,6 +989,7 @@ impl QueryRouter {
                                 "Got wrong length for integer type parameter in bind: {}",
                                 len
                             );
+                            message_cursor.advance(len);
                             continue;
                         }
                     },
@@ -985,6 +998,9 @@ impl QueryRouter {
                 };
 
                 shards.insert(sharder.shard(value));
+            } else {
+                // Not a sharding key, the next parameter starts after it.
+                message_cursor.advance(len);
             }
         }
 
